@@ -6,7 +6,7 @@ from __future__ import annotations
 import datetime
 from fractions import Fraction
 
-from .core import outcome, octs, rxbuf, decoded
+from .core import outcome, octs, rxbuf, decoded, owned
 
 UTC = datetime.timezone.utc
 EPOCH58 = datetime.datetime(1958, 1, 1, tzinfo=UTC)
@@ -68,7 +68,7 @@ def op_cds_rt(a):
         from .probe import twin
         twin(lambda: _mk(a["st"]), lambda x: (x + datetime.timedelta(days=1, milliseconds=1), x.read_from_raw(bytes([64, 1, 1, 0, 0, 1, 1]))))
         s = _mk(a["st"])
-        raw = rxbuf(s.pack(), a["sfx"])
+        raw = rxbuf(owned(s.pack), a["sfx"])
         d = CdsShortTimestamp.unpack(raw)
         t = CdsShortTimestamp.unpack_from_raw(raw)
         # read_from_raw on objects with a history: an empty one and one built by from_datetime (whose views were
@@ -103,6 +103,11 @@ def op_cds_from_dt(a):
 
     def run():
         dt = datetime.datetime(t["y"], t["mo"], t["d"], t["h"], t["mi"], t["s"], t["us"], tzinfo=UTC)
+        # the same instant as an aware datetime of another zone (two in three events): the stamp is that of the instant
+        k = (t["d"] + t["h"] + t["mi"] + t["s"]) % 3
+        if k and 1900 < t["y"] < 9000:
+            off = ((t["h"] * 60 + t["mi"] + t["d"] * 97) % (26 * 4) - 12 * 4) * 15          # -12:00 .. +13:45 in quarter hours
+            dt = dt.astimezone(datetime.timezone(datetime.timedelta(minutes=off)))
         s = CdsShortTimestamp.from_datetime(dt)
         # the object's own datetime / Unix views are the datetime it was built from (sub-millisecond part included);
         # the stamp is judged through a fresh object built from its (days, ms)
